@@ -27,6 +27,7 @@ type c07Case struct {
 	Front   bool   `json:"front,omitempty"`
 	Longest bool   `json:"longest,omitempty"`
 	Source  string `json:"source,omitempty"`
+	Order   uint64 `json:"order,omitempty"` // seed of the order in which the methods are called
 }
 
 type c07 struct{ pool guard.Pool }
@@ -86,6 +87,7 @@ func (*c07) Gen(t core.RT, env *core.Env) any {
 	}
 	c.Front = rapid.IntRange(0, 3).Draw(t, "front") == 0
 	c.Longest = rapid.IntRange(0, 7).Draw(t, "longest") == 0
+	c.Order = rapid.Uint64Range(0, 1<<30).Draw(t, "order")
 	return c
 }
 
@@ -205,12 +207,25 @@ func (p *c07) Run(ci any, env *core.Env) *core.Failure {
 			prevStart, prevEnd = m[0], m[1]
 		}
 	}
-	call := func(api string, f func()) {
+	// The calls are collected and then executed twice on the same Regex: the second
+	// round runs every method after every other one, so a method that leaves state
+	// behind which makes a later (different) method fail is exercised in both orders.
+	type step struct {
+		api string
+		f   func()
+	}
+	var steps []step
+	call := func(api string, f func()) { steps = append(steps, step{api, f}) }
+	exec := func(round int, st step) {
 		if fail != nil {
 			return
 		}
-		env.Count("api", api)
-		if msg, pan := guard.Call(f); pan {
+		env.Count("api", st.api)
+		if msg, pan := guard.Call(st.f); pan {
+			api := st.api
+			if round > 0 {
+				api += "(after the other methods)"
+			}
 			bad(api, "PANIC_OR_FAULT", "normal return", msg)
 		}
 	}
@@ -334,6 +349,25 @@ func (p *c07) Run(ci any, env *core.Env) *core.Failure {
 		_, _ = r.LiteralPrefix()
 		_ = r.SubexpIndex("n0")
 	})
+	// two rounds, each in an order derived from the case (a pure function of it):
+	// state left behind by one method meets every other method as its next call
+	x := c.Order*2862933555777941757 + 3037000493
+	for round := 0; round < 2; round++ {
+		perm := make([]int, len(steps))
+		for i := range perm {
+			perm[i] = i
+		}
+		if c.Order != 0 {
+			for i := len(perm) - 1; i > 0; i-- {
+				x = x*6364136223846793005 + 1442695040888963407
+				j := int((x >> 33) % uint64(i+1))
+				perm[i], perm[j] = perm[j], perm[i]
+			}
+		}
+		for _, i := range perm {
+			exec(round, steps[i])
+		}
+	}
 	if fail != nil {
 		return fail
 	}
